@@ -280,6 +280,12 @@ def _shared_text(ctx):
             for evs, body in (([ln], [ln]), ([ln, ln], ["1 = N 0 0", ln, "%d = E after" % (t + 1)]), (['1 = E "section a"', ln], [ln, ln])):
                 check_e2e(ctx, body, "line %r written identically in [Events] and in the track" % ln, events=evs)
     check_e2e(ctx, ["0 = TS 4", "0 = B 1000000000", "2 = N 1 0"], "sync lines repeated verbatim in the track")
+    # the other direction: a canonical track line ALSO written (where it is unparsable) in [Events] / [SyncTrack] of
+    # the same chart - in the track it is still decoded, with the same padding and with another
+    for g in ("2 = N 3 4", "2 = S 2 7", "2 = E solo", "768 = N 7 0", "  5 = N 6 0 ", "\t9 = E a%b"):
+        body = ["1 = N 0 0"] + (["5 = N 2 1"] if " N 6 " in g else []) + [g, "999 = E after"]
+        for evs, syn in (([g], ()), ((), (g,)), ([g, g], (g,)), ([g.strip()], (g.strip() + " ",))):
+            check_e2e(ctx, body, "line %r written identically in %s and in the track" % (g, "[Events]" if evs and not syn else "[SyncTrack]" if not evs else "[Events] and [SyncTrack]"), sync=("0 = TS 4", "0 = B 1000000000") + tuple(syn), events=evs)
 
 
 def _foreign_digits(ctx):
